@@ -77,6 +77,18 @@ CHECKS = {
         "Trusted: Python sets/ranges; day<->date bijection (C01).",
         "DESIGN.md §2 C18",
     ),
+    "C16": (
+        "exploration",
+        "enumeration + Hypothesis: inverse/monotone relations, the rules' definition re-derived from year starts, differential vs datetime.isocalendar, scans",
+        "All 71 week-year rules x every calendar on contiguous windows around year boundaries and both range ends: "
+        "(week-year, week, weekday) -> get_local_date round trip, week within weeks-in-week-year, (week-year, week) "
+        "changes exactly on the rule's first day of week (and optionally at a year start for BCL-style rules) to the "
+        "next week, regular rules equal their documented definition; ISO rule vs isocalendar on all 3652059 ordinals; "
+        "n-th weekday vs a month scan over every (year, month, occurrence, weekday) (all years in thorough); "
+        "next/previous/adjusters vs arithmetic on the weekday cycle incl. calendar range ends.",
+        "Trusted: CPython datetime/calendar; day<->date bijection (C01).",
+        "DESIGN.md §2 C16",
+    ),
 }
 
 NOT_YET = {}
